@@ -652,7 +652,9 @@ def _abstract_harness(F):
     import tables
     from C02 import EXTRA
     xl = dict(EXTRA)
-    xl['sse2::m128_sin'] = lambda I, fr, callee, args, dest, argops, line: tables.vec([tm.mk('sin', x) for x in tables.lanes(I, args[0], 4, 4)], 4)
+    import approx
+    for hn in approx.sin_helpers(F) or ['sse2::m128_sin']:
+        xl[hn] = lambda I, fr, callee, args, dest, argops, line: tables.vec([tm.mk('sin', x) for x in tables.lanes(I, args[0], 4, 4)], 4)
     return Harness(F, {'extra_leaf': xl})
 
 
@@ -1200,7 +1202,7 @@ def run(ctx):
         import approx
         from harness import Harness
         Hp = Harness(F)
-        has_sin = any(n == 'sse2::m128_sin' for n in F.items)
+        has_sin = bool(approx.sin_helpers(F))
         n_c = approx.run_certs(ctx, cfg, F, Hp, ['f32::math::acos_approx_f32'] + (['sse2::m128_sin'] if has_sin else []))
         ctx.floor('approximation accuracy certificates (%s)' % cfg, n_c, 2 if has_sin else 1)
         ctx.floor('interpolation / steering / clamping instances (%s)' % cfg, sum(counts.values()), 40)
